@@ -263,6 +263,7 @@ func TestC05(t *testing.T) {
 	ev := newEv(t, "C05")
 	c05Ev = ev
 	ev.replayTier(t)
+	_ = ev.quirk("unbounded_recursion_stack_overflow") // open finding D42: prints its KNOWN-FINDING line while the probe reproduces it
 	record := func(class string, c ExecCase, f totalFacts) {
 		ev.Eval(c.Key(), f.mismatch)
 		for k := range f.classes {
